@@ -29,10 +29,13 @@ const (
 	// text.RightTrim / text.LeftTrim with whitespace mode C (0..3)
 	OpRTrim
 	OpLTrim
+	// combinator.Single / combinator.SuppressError around the operand
+	OpSingle
+	OpSuppress
 )
 
 var opNames = map[Op]string{OpSeqOf: "Seq", OpSeqTry: "SeqTry", OpSeqFirstOrAll: "SeqFOA", OpAny: "Any", OpChoice: "Choice",
-	OpRTrim: "RTrim", OpLTrim: "LTrim", OpOpt: "Opt", OpMany: "Many", OpMany1: "Many1", OpSepBy: "SepBy", OpSepBy1: "SepBy1"}
+	OpRTrim: "RTrim", OpLTrim: "LTrim", OpSingle: "Single", OpSuppress: "SuppressError", OpOpt: "Opt", OpMany: "Many", OpMany1: "Many1", OpSepBy: "SepBy", OpSepBy1: "SepBy1"}
 
 // Expr is a grammar expression. ID is unique within a grammar.
 type Expr struct {
@@ -205,7 +208,7 @@ func exprNullable(e *Expr, nl []bool) bool {
 		return false
 	case OpEmpty, OpOpt, OpMany, OpSepBy:
 		return true
-	case OpRTrim, OpLTrim:
+	case OpRTrim, OpLTrim, OpSingle, OpSuppress:
 		return exprNullable(e.Kids[0], nl)
 	case OpNT:
 		return nl[e.NT]
